@@ -107,6 +107,8 @@ VSHAPES = {1: [(1,)], 2: [(2,), (1, 2), (2, 1)], 3: [(3,), (1, 3, 1)], 4: [(4,),
 
 
 def corr(c, tier, rng):
+    from props import c01 as _c01
+    _c01.scan_correspondence(c, tier, rng)
     quick = tier == "quick"
     n_trees = 90 if quick else 700
     n_vec = 30 if quick else 200
